@@ -202,6 +202,19 @@ EXECUTE_SRC = '''def _execute(operator: str, *operands):
         raise UndefinedOperationError(operator, operands, 'real numbers')
     return dt.DerivedValue(dt.Formula(operator, list(values)))'''
 
+EXECUTE_SRC2 = '''def _execute(operator: str, *operands):
+    only_plain_numbers = all((isinstance(operand, Real) for operand in operands))
+    if only_plain_numbers:
+        function = OPERATIONS[operator]
+        return function(*operands)
+    wrapped_operands = []
+    for operand in operands:
+        try:
+            wrapped_operands.append(dut.wrap_in_experimental_value(operand))
+        except TypeError:
+            raise UndefinedOperationError(operator, operands, 'real numbers')
+    return dt.DerivedValue(dt.Formula(operator, wrapped_operands))'''
+
 WRAP_SRC = '''def wrap_in_experimental_value(operand):
     if isinstance(operand, (Real, np.bool_)):
         return dt.Constant(int(operand) if isinstance(operand, Integral) else float(operand))
@@ -225,27 +238,49 @@ def fn_shape(rel, f, lits):
         if f.args.args or not f.args.vararg or f.args.vararg.arg != "args" or f.args.kwarg or len(body) != 3:
             raise TranslateError(rel, f, "log: signature / statements")
 
-        def branch(st, n):
-            if not (isinstance(st, ast.If) and ast.unparse(st.test) == "len(args) == {}".format(n) and not st.orelse
-                    and len(st.body) == 1 and isinstance(st.body[0], ast.Return)
-                    and isinstance(st.body[0].value, ast.Call) and ast.unparse(st.body[0].value.func) == "_execute"):
+        def branch(st):
+            """if len(args) == n: [names = args;] return _execute(lit.OP, <the n arguments>)  ->  (n, OP, positions)"""
+            n = None
+            if isinstance(st, ast.If) and not st.orelse:
+                for k in (1, 2):
+                    if ast.unparse(st.test) == "len(args) == {}".format(k):
+                        n = k
+            if n is None:
+                raise TranslateError(rel, st, "log: not a branch on the number of arguments")
+            stmts = list(st.body)
+            names = {}
+            if len(stmts) == 2 and isinstance(stmts[0], ast.Assign) and len(stmts[0].targets) == 1 \
+                    and isinstance(stmts[0].targets[0], ast.Tuple) and ast.unparse(stmts[0].value) == "args" \
+                    and all(isinstance(e, ast.Name) for e in stmts[0].targets[0].elts) \
+                    and len(stmts[0].targets[0].elts) == n \
+                    and len({e.id for e in stmts[0].targets[0].elts}) == n \
+                    and "args" not in {e.id for e in stmts[0].targets[0].elts}:
+                names = {e.id: i for i, e in enumerate(stmts[0].targets[0].elts)}     # a, b = args
+                stmts = stmts[1:]
+            if not (len(stmts) == 1 and isinstance(stmts[0], ast.Return) and isinstance(stmts[0].value, ast.Call)
+                    and ast.unparse(stmts[0].value.func) == "_execute" and not stmts[0].value.keywords):
                 raise TranslateError(rel, st, "log: branch for {} argument(s)".format(n))
-            a = st.body[0].value.args
-            op = lit_op(rel, a[0], lits)
+            a_ = stmts[0].value.args
+            op = lit_op(rel, a_[0], lits)
             idx = []
-            for e in a[1:]:
-                if not (isinstance(e, ast.Subscript) and ast.unparse(e.value) == "args"
-                        and isinstance(e.slice, ast.Constant) and isinstance(e.slice.value, int)
-                        and 0 <= e.slice.value < n):
-                    raise TranslateError(rel, e, "log: operand is not args[i]")
-                idx.append(e.slice.value)
+            for e in a_[1:]:
+                if isinstance(e, ast.Subscript) and ast.unparse(e.value) == "args" \
+                        and isinstance(e.slice, ast.Constant) and isinstance(e.slice.value, int) \
+                        and not isinstance(e.slice.value, bool) and 0 <= e.slice.value < n:
+                    idx.append(e.slice.value)
+                elif isinstance(e, ast.Name) and e.id in names:
+                    idx.append(names[e.id])
+                else:
+                    raise TranslateError(rel, e, "log: operand is neither args[i] nor an unpacked argument")
             if len(idx) != n:
                 raise TranslateError(rel, st, "log: wrong number of operands")
-            return op, idx
-        two, idx2 = branch(body[0], 2)
-        one, idx1 = branch(body[1], 1)
+            return n, op, idx
+        branches = dict((br[0], br[1:]) for br in (branch(body[0]), branch(body[1])))
+        if sorted(branches) != [1, 2]:
+            raise TranslateError(rel, f, "log: the one- and the two-argument branch are not both present")
         if not isinstance(body[2], ast.Raise):
             raise TranslateError(rel, body[2], "log: last statement is not raise")
+        (two, idx2), (one, idx1) = branches[2], branches[1]
         return "FnLog {} {}%nat {}%nat {}".format(two, idx2[0], idx2[1], one)
     args = [a.arg for a in f.args.args]
     if len(args) != 1 or f.args.vararg or f.args.kwarg or f.args.defaults or len(body) != 1 \
@@ -269,6 +304,48 @@ def fn_shape(rel, f, lits):
     raise TranslateError(rel, f, f.name + ": unrecognised body " + ast.unparse(body[0])[:60])
 
 
+def vectorize_flag_shape(wb, kinds):
+    """f1 = any(isinstance(arg, K1) for arg in args); f2 = any(... K2 ...)
+       if not f1 and not f2: return func(*args)
+       r = np.vectorize(func)(*args)
+       return X if f else Y            with {X, Y} = {r, r.tolist()}
+    -> the rule list [(kind of f, X is tolist), (the other kind, Y is tolist)], or None if not this shape"""
+    if len(wb) != 5:
+        return None
+    flags = {}
+    for st in wb[:2]:
+        if not (isinstance(st, ast.Assign) and len(st.targets) == 1 and isinstance(st.targets[0], ast.Name)):
+            return None
+        for k in kinds:
+            if ast.unparse(st.value) == "any((isinstance(arg, {}) for arg in args))".format(k):
+                flags[st.targets[0].id] = k
+    if len(flags) != 2 or sorted(flags.values()) != sorted(kinds) or {"args", "func"} & set(flags):
+        return None
+    f1, f2 = [st.targets[0].id for st in wb[:2]]
+    st = wb[2]
+    if not (isinstance(st, ast.If) and not st.orelse and len(st.body) == 1
+            and ast.unparse(st.body[0]) == "return func(*args)"
+            and ast.unparse(st.test) in ("not {} and (not {})".format(f1, f2), "not {} and (not {})".format(f2, f1))):
+        return None
+    st = wb[3]
+    if not (isinstance(st, ast.Assign) and len(st.targets) == 1 and isinstance(st.targets[0], ast.Name)
+            and ast.unparse(st.value) == "np.vectorize(func)(*args)" and st.targets[0].id not in flags
+            and st.targets[0].id not in ("args", "func")):
+        return None
+    r = st.targets[0].id
+    st = wb[4]
+    if not (isinstance(st, ast.Return) and isinstance(st.value, ast.IfExp) and isinstance(st.value.test, ast.Name)
+            and st.value.test.id in flags):
+        return None
+    x, y = ast.unparse(st.value.body), ast.unparse(st.value.orelse)
+    if {x, y} != {r, r + ".tolist()"}:
+        return None
+    first = flags[st.value.test.id]
+    other = [k for k in kinds if k != first][0]
+    return ["({}, {})".format(kinds[first], "true" if x.endswith(".tolist()") else "false"),
+            "({}, {})".format(kinds[other], "true" if y.endswith(".tolist()") else "false")]
+
+
 def vectorize_rules(rel, tree):
     fns = module_functions(tree)
     if "vectorize" not in fns:
@@ -282,6 +359,10 @@ def vectorize_rules(rel, tree):
             or not w.args.vararg or w.args.vararg.arg != "args":
         raise TranslateError(rel, w, "vectorize wrapper: signature")
     wb = strip_doc(w.body)
+    kinds = {"np.ndarray": "VkNdarray", "list": "VkList"}
+    alt = vectorize_flag_shape(wb, kinds)
+    if alt is not None:
+        return alt
     if len(wb) < 1 or ast.unparse(wb[-1]) != "return func(*args)":
         raise TranslateError(rel, w, "vectorize wrapper: last statement is not 'return func(*args)'")
     rules = []
@@ -357,7 +438,7 @@ def gen_overloads(repo):
             raise TranslateError(rel, tree, "function {} not defined".format(f))
         out.append("  | F_{} => {}".format(f, fn_shape(rel, fns[f], lits)))
     out.append("  end.\n")
-    if "_execute" not in fns or normalized(fns["_execute"]) != EXECUTE_SRC:
+    if "_execute" not in fns or normalized(fns["_execute"]) not in (EXECUTE_SRC, EXECUTE_SRC2):
         raise TranslateError(rel, fns.get("_execute", tree), "_execute is not of the recognised shape")
     out.append("(* _execute: all operands numbers.Real -> OPERATIONS[op] applied to them, a plain number; otherwise\n"
                "   DerivedValue(Formula(op, [wrap(x) for x in operands])) *)")
